@@ -161,6 +161,9 @@ def run(ck):
                        % ('holds' if not off else 'OFFENDERS ' + '; '.join(off)),
                        'agreement on a unisolvent grid then identifies the polynomial the method computes']
     ck.tlc('Bezier', 'Bezier_MC.cfg', need_actions=['Step'])
+    # the degree <= 3 identities over unbounded integers (symbolic), and a perturbed one refuted (non-vacuity)
+    ck.apalache('MC_Ident', 'Inv')
+    ck.apalache('MC_Ident', 'Wrong', expect_error=True)
     dump = 'SPECIFICATION Spec\nCONSTANTS D = %d\n AMin <- %s\n AMax = %d\n MaxDeg = 3\n Dense <- %s\nINVARIANT Dump\n'
     for D, amin, amax, dense, exact in ((8, 'MinusTwo', 10, 'Dense4', True), (3, 'MinusOne', 4, 'Dense3' if quick else 'Dense4', False)):
         groups = {}
